@@ -80,9 +80,16 @@ class TLSinTLSStream(NetworkStream):  # pragma: no cover
         exc_map: ExceptionMapping = {socket.timeout: ReadTimeout, OSError: ReadError}
         with map_exceptions(exc_map):
             self._sock.settimeout(timeout)
-            return typing.cast(
-                bytes, self._perform_io(functools.partial(self.ssl_obj.read, max_bytes))
-            )
+            try:
+                return typing.cast(
+                    bytes,
+                    self._perform_io(functools.partial(self.ssl_obj.read, max_bytes)),
+                )
+            except ssl.SSLEOFError:
+                # The peer closed the connection without a TLS close_notify.
+                # `SSLSocket` reports that as the end of the stream (its default
+                # `suppress_ragged_eofs=True`), as do the async backends.
+                return b""
 
     def write(self, buffer: bytes, timeout: float | None = None) -> None:
         exc_map: ExceptionMapping = {socket.timeout: WriteTimeout, OSError: WriteError}
